@@ -139,7 +139,7 @@ PROPS = {
                 {'harness': 'vcell_accessors', 'file': 'src/vm/vcell.rs', 'kind': 'complete', 'timeout': 600, 'what': 'VCell::as_ptr/as_argc/as_car/as_cdr/as_bp/is_pair answer Ok(payload) exactly on the matching variant (their contracts are assumed on the Verus side)'},
             ],
             'assumptions': [
-                'scope: the vector procedures vector, vector-length, vector-ref, vector-set!, vector-fill!, list->vector, vector-copy (start index), vector-copy! and the pair/list procedures cons, car, cdr, set-car!, set-cdr!, list-ref, list-tail; append, reverse, vector->list, make-vector, equal?, and the library procedures written in Scheme (length, map, memq, assq, ...) are NOT under contract',
+                'scope: the vector procedures vector, make-vector, vector-length, vector-ref, vector-set!, vector-fill!, vector->list, list->vector, vector-copy (start index), vector-copy! and the pair/list procedures cons, car, cdr, set-car!, set-cdr!, list-ref, list-tail, reverse; append (clone_list), equal?, and the library procedures written in Scheme (length, map, memq, assq, ...) are NOT under contract', 'vector->list / reverse build fresh lists: list_of / plist say every pair of the result is an allocated cell, the cars designate the very elements (a pointer is kept, another value sits in an allocated cell holding it), the order is right, the list ends in (), and heap_ext says no cell that was allocated before is changed; reverse requires that the cdr fields along its argument designate allocated cells (a reachable list never points into free cells: collector soundness, C03) and, like list->vector, does not terminate on a circular list',
                 'in this group the heap is opaque: Heap::get / put / get_at_index_mut carry assumed contracts over heap_deref / heap_live (what a pointer designates, which cells are allocated); the put contract restates what unit heap proves about the real body',
                 'stores into the interior-mutable Vector are tracked as events: vector_written(v, i, x) can only be established by Vector::put(i, x); "no other slot is written" (frame) is not expressible and not decided; overlapping vector-copy! on one vector is not decided',
                 'Vector::put carries the precondition index < length, so its silently-ignore branch is proved dead at every call site',
